@@ -420,19 +420,28 @@ class Prop:
 
     def model_mutate(self, vals, edges, src, before, after, stats):
         vals[src] = list(after)
-        if before == after:
-            # an identity event may still be replayed on the partners: equal lists
-            # stay equal, independent ones may change
-            for node in self.reach(edges, src):
-                if vals[node] is not UNKNOWN and vals[node] != before:
-                    vals[node] = UNKNOWN
-            return
-        for node in self.reach(edges, src):
-            if vals[node] is not UNKNOWN and vals[node] == before:
-                vals[node] = list(after)
-                stats["propagated"] += 1
-            else:
-                vals[node] = UNKNOWN       # a one-way target that had been changed independently
+        # The event travels hop by hop, each hop replaying it on its own list and
+        # emitting its own event.  A hop whose list equalled the source's takes the
+        # same step ("clean"); a one-way target that had been changed independently
+        # replays the positional event on different contents: its result - and
+        # whatever it passes on to the nodes behind it - is not predicted.
+        clean = {src}
+        todo = [src]
+        seen = {src}
+        while todo:
+            x = todo.pop(0)
+            for (a, b) in sorted(edges):
+                if a != x or b in seen:
+                    continue
+                seen.add(b)
+                todo.append(b)
+                if x in clean and vals[b] is not UNKNOWN and vals[b] == before:
+                    clean.add(b)
+                    if before != after:
+                        vals[b] = list(after)
+                        stats["propagated"] += 1
+                else:
+                    vals[b] = UNKNOWN
 
     def cleanup(self):
         from ..values import CUR
